@@ -1,0 +1,59 @@
+//go:build verif
+
+package interpreter
+
+import "github.com/tetratelabs/wazero/internal/wasm"
+
+// VerifOp is a read-only copy of one lowered interpreter operation, as the call engine executes it
+// (branch targets already resolved to indexes into the operation list).
+type VerifOp struct {
+	// Kind is the operation kind's name (operationKind.String()).
+	Kind string
+	// Targets holds the resolved branch targets of br / br_if / br_table, and the function-return
+	// continuation of return_call_indirect. math.MaxUint64 means "return from the function".
+	Targets []uint64
+	// U1 is the first immediate: the function index of call and return_call, the label of a label.
+	U1 uint64
+}
+
+// VerifLoweredOps returns, per locally defined function of a module that was compiled by eng, the
+// lowered operation list (nil for host functions). It returns false if eng is not the interpreter or
+// the module has not been compiled by it. Verification instrumentation: read-only, never called by
+// production code.
+func VerifLoweredOps(eng wasm.Engine, module *wasm.Module) ([][]VerifOp, bool) {
+	e, ok := eng.(*engine)
+	if !ok {
+		return nil, false
+	}
+	fs, ok := e.getCompiledFunctions(module)
+	if !ok {
+		return nil, false
+	}
+	ret := make([][]VerifOp, len(fs))
+	for i := range fs {
+		body := fs[i].body
+		if fs[i].hostFn != nil {
+			continue
+		}
+		ops := make([]VerifOp, len(body))
+		for j := range body {
+			op := &body[j]
+			v := VerifOp{Kind: op.Kind.String(), U1: op.U1}
+			switch op.Kind {
+			case operationKindBr:
+				v.Targets = []uint64{op.U1}
+			case operationKindBrIf:
+				v.Targets = []uint64{op.U1, op.U2}
+			case operationKindBrTable:
+				for k := 0; k < len(op.Us); k += 2 {
+					v.Targets = append(v.Targets, op.Us[k])
+				}
+			case operationKindTailCallReturnCallIndirect:
+				v.Targets = []uint64{op.Us[1]}
+			}
+			ops[j] = v
+		}
+		ret[i] = ops
+	}
+	return ret, true
+}
